@@ -255,6 +255,7 @@ func cliPart(r *mon.Run) {
 	col.flush(r)
 	multiPart(r, e)
 	namePart(r, e)
+	skipPart(r, e)
 	if r.Counter("cli_runs") < 300 {
 		r.Inconclusive("CLI part ran only %d processes", r.Counter("cli_runs"))
 	}
